@@ -196,15 +196,12 @@ class C11(runner.Prop):
         if case['remote'] is None:
             compare_loaded(copy.copy(spec), spec, ms, ctx, 'copy')
             compare_loaded(copy.deepcopy(spec), spec, ms, ctx, 'deepcopy')
-            st_ = spec.__getstate__()
             try:
                 again = pickle.loads(pickle.dumps(loaded, protocol=proto))
             except Exception as e:  # noqa: BLE001
                 ctx.fail('second_round_trip/raises', f'{type(e).__name__}: {e}; spec={spec}')
             else:
                 compare_loaded(again, spec, ms, ctx, 'second_round_trip')
-            if not isinstance(st_, tuple):
-                ctx.fail('getstate/type', repr(type(st_)))
             return
         # ---- fresh process
         present = sorted(name for name, (vc, vn) in U.VICTIMS.items()
